@@ -204,6 +204,59 @@ func workload(seconds int, probesOut string) error {
 		}
 	}()
 
+	// ---- two administrators creating the same (subject, provisioner) at the same moment:
+	// exactly one may succeed and the store must hold exactly one record
+	wg.Add(1)
+	go func() {
+		defer wg.Done()
+		jwkProv, err := a.LoadProvisionerByName("jwk")
+		if err != nil {
+			return
+		}
+		for round := 0; ; round++ {
+			select {
+			case <-stop:
+				return
+			default:
+			}
+			subj := fmt.Sprintf("dup-%d", round)
+			var ok int32
+			var pair sync.WaitGroup
+			start := make(chan struct{})
+			for k := 0; k < 2; k++ {
+				pair.Add(1)
+				go func() {
+					defer pair.Done()
+					<-start
+					adm := &linkedca.Admin{ProvisionerId: jwkProv.GetID(), Subject: subj, Type: linkedca.Admin_ADMIN}
+					if a.StoreAdmin(ctx, adm, jwkProv) == nil {
+						atomic.AddInt32(&ok, 1)
+					}
+				}()
+			}
+			close(start)
+			pair.Wait()
+			stored := 0
+			var ids []string
+			if all, err := a.GetAdminDatabase().GetAdmins(ctx); err == nil {
+				for _, x := range all {
+					if x.Subject == subj {
+						stored++
+						ids = append(ids, x.Id)
+					}
+				}
+			}
+			addProbe(probe{"concurrent-store-admin", fmt.Sprintf("created=%d stored=%d", ok, stored), "created=1 stored=1"})
+			// remove them again: the policy probes refuse policies that would lock out any administrator
+			for _, id := range ids {
+				if a.RemoveAdmin(ctx, id) != nil {
+					a.GetAdminDatabase().DeleteAdmin(ctx, id)
+				}
+			}
+			time.Sleep(5 * time.Millisecond)
+		}
+	}()
+
 	time.Sleep(time.Duration(seconds) * time.Second)
 	close(stop)
 	wg.Wait()
